@@ -741,3 +741,229 @@ Lemma run_range ops st h b order :
   exists ps, ps.*1 = order /\ ps ≡ₚ map_to_list (abs b) /\
     forall T (f : T -> Z -> Z -> T * bool) s, Range b order f s = visit ps f s.
 Proof. intros _ _. apply Range_spec. Qed.
+
+(* ---- the effect of each operation, in terms of the observers only ---- *)
+Lemma GetForward_char b k r :
+  GetForward b k = r <->
+  (exists v, r = (v, true) /\ abs b !! k = Some v) \/ (r = (0, false) /\ abs b !! k = None).
+Proof.
+  rewrite GetForward_spec. destruct (abs b !! k) as [v|]; split.
+  - intros <-. left. eauto.
+  - intros [(v' & -> & [= ->])|[_ ?]]; [reflexivity|discriminate].
+  - intros <-. right. auto.
+  - intros [(v' & _ & ?)|[-> _]]; [discriminate|reflexivity].
+Qed.
+
+Lemma GetReverse_char b v r : inv b ->
+  GetReverse b v = r <->
+  (exists k, r = (k, true) /\ abs b !! k = Some v) \/ (r = (0, false) /\ forall k, abs b !! k <> Some v).
+Proof.
+  intros H. destruct (GetReverse_spec b v H) as (Hsome & Hcases & Hnone). split.
+  - intros <-. destruct Hcases as [E|[k E]].
+    + right. split; [exact E|]. apply Hnone. exact E.
+    + left. exists k. split; [exact E|]. apply Hsome. exact E.
+  - intros [(k & -> & Hk)|[-> Hno]].
+    + apply Hsome. exact Hk.
+    + destruct Hcases as [E|[k E]]; [exact E|]. exfalso. apply (Hno k). apply Hsome. exact E.
+Qed.
+
+(* observers of b' from a pointwise description of its pair set *)
+Lemma effect_forward b' (P : Z -> Z -> Prop) k' r :
+  (forall k v, abs b' !! k = Some v <-> P k v) ->
+  ((exists v, r = (v, true) /\ P k' v) \/ (r = (0, false) /\ forall v, ~ P k' v)) ->
+  GetForward b' k' = r.
+Proof.
+  intros HP Hr. apply GetForward_char. destruct Hr as [(v & -> & Hv)|[-> Hno]].
+  - left. exists v. split; [reflexivity|]. apply HP. exact Hv.
+  - right. split; [reflexivity|]. destruct (abs b' !! k') as [v|] eqn:E; [|reflexivity].
+    exfalso. apply (Hno v). apply HP. exact E.
+Qed.
+
+Lemma effect_reverse b' (P : Z -> Z -> Prop) v' r : inv b' ->
+  (forall k v, abs b' !! k = Some v <-> P k v) ->
+  ((exists k, r = (k, true) /\ P k v') \/ (r = (0, false) /\ forall k, ~ P k v')) ->
+  GetReverse b' v' = r.
+Proof.
+  intros Hi HP Hr. apply (GetReverse_char b' v' r Hi). destruct Hr as [(k & -> & Hk)|[-> Hno]].
+  - left. exists k. split; [reflexivity|]. apply HP. exact Hk.
+  - right. split; [reflexivity|]. intros k E. apply (Hno k). apply HP. exact E.
+Qed.
+
+Lemma Add_effect b k v b' : inv b -> Add b k v = Ok b' ->
+  (forall k', GetForward b' k' =
+     if decide (k' = k) then (v, true)
+     else if decide (GetForward b k' = (v, true)) then (0, false) else GetForward b k') /\
+  (forall v', GetReverse b' v' =
+     if decide (v' = v) then (k, true)
+     else if decide (GetReverse b v' = (k, true)) then (0, false) else GetReverse b v').
+Proof.
+  intros Hi E. destruct (Add_spec b k v Hi) as (b0 & E0 & Hi' & Habs & _).
+  assert (b0 = b') by congruence. subst b0.
+  assert (HP : forall k0 v0, abs b' !! k0 = Some v0 <-> add_rel (abs b) k v k0 v0)
+    by (intros; rewrite Habs; apply spec_add_lookup).
+  pose proof (injective_abs b Hi) as Hinj.
+  split.
+  - intros k'. apply (effect_forward b' _ k' _ HP). unfold add_rel.
+    destruct (decide (k' = k)) as [->|Hk]; [left; exists v; auto|].
+    destruct (decide (GetForward b k' = (v, true))) as [Ev|Ev].
+    + right. split; [reflexivity|]. intros v0 [[? _]|(_ & Hv0 & E0')]; [contradiction|].
+      apply GetForward_char in Ev as [(v1 & [= <-] & E1)|[? _]]; [|discriminate]. congruence.
+    + destruct (abs b !! k') as [v1|] eqn:E1.
+      * left. exists v1. split; [apply GetForward_char; left; eauto|]. right. repeat split; auto.
+        intros ->. apply Ev. apply GetForward_char. left. eauto.
+      * right. split; [apply GetForward_char; right; auto|].
+        intros v0 [[? _]|(_ & _ & E0')]; [contradiction|congruence].
+  - intros v'. apply (effect_reverse b' _ v' _ Hi' HP). unfold add_rel.
+    destruct (decide (v' = v)) as [->|Hv]; [left; exists k; auto|].
+    destruct (decide (GetReverse b v' = (k, true))) as [Ek|Ek].
+    + right. split; [reflexivity|]. intros k0 [[_ ?]|(Hk0 & _ & E0')]; [contradiction|].
+      apply (GetReverse_char b v' _ Hi) in Ek as [(k1 & [= <-] & E1)|[? _]]; [|discriminate].
+      apply Hk0. eapply Hinj; eauto.
+    + destruct (proj1 (GetReverse_char b v' _ Hi) eq_refl) as [(k1 & Er & E1)|[Er Hno]].
+      * left. exists k1. split; [exact Er|]. right. repeat split; auto.
+        intros ->. apply Ek. exact Er.
+      * right. split; [exact Er|]. intros k0 [[_ ?]|(_ & _ & E0')]; [contradiction|]. apply (Hno k0 E0').
+Qed.
+
+Lemma RemoveForward_effect b k : inv b ->
+  (forall k', GetForward (RemoveForward b k) k' = if decide (k' = k) then (0, false) else GetForward b k') /\
+  (forall v', GetReverse (RemoveForward b k) v' =
+     if decide (GetReverse b v' = (k, true)) then (0, false) else GetReverse b v').
+Proof.
+  intros Hi. destruct (RemoveForward_spec b k Hi) as [Hi' Habs].
+  set (b' := RemoveForward b k) in *.
+  assert (HP : forall k0 v0, abs b' !! k0 = Some v0 <-> k0 <> k /\ abs b !! k0 = Some v0)
+    by (intros; rewrite Habs; apply lookup_delete_Some).
+  pose proof (injective_abs b Hi) as Hinj.
+  split.
+  - intros k'. apply (effect_forward b' _ k' _ HP).
+    destruct (decide (k' = k)) as [->|Hk]; [right; split; [reflexivity|]; intros v0 [? _]; contradiction|].
+    destruct (abs b !! k') as [v1|] eqn:E1.
+    + left. exists v1. split; [apply GetForward_char; left; eauto|]. auto.
+    + right. split; [apply GetForward_char; right; auto|]. intros v0 [_ ?]. congruence.
+  - intros v'. apply (effect_reverse b' _ v' _ Hi' HP).
+    destruct (decide (GetReverse b v' = (k, true))) as [Ek|Ek].
+    + right. split; [reflexivity|]. intros k0 [Hk0 E0'].
+      apply (GetReverse_char b v' _ Hi) in Ek as [(k1 & [= <-] & E1)|[? _]]; [|discriminate].
+      apply Hk0. eapply Hinj; eauto.
+    + destruct (proj1 (GetReverse_char b v' _ Hi) eq_refl) as [(k1 & Er & E1)|[Er Hno]].
+      * left. exists k1. split; [exact Er|]. split; [|exact E1]. intros ->. apply Ek. exact Er.
+      * right. split; [exact Er|]. intros k0 [_ E0']. apply (Hno k0 E0').
+Qed.
+
+Lemma RemoveReverse_effect b v : inv b ->
+  (forall v', GetReverse (RemoveReverse b v) v' = if decide (v' = v) then (0, false) else GetReverse b v') /\
+  (forall k', GetForward (RemoveReverse b v) k' =
+     if decide (GetForward b k' = (v, true)) then (0, false) else GetForward b k').
+Proof.
+  intros Hi. destruct (RemoveReverse_spec b v Hi) as [Hi' Habs].
+  set (b' := RemoveReverse b v) in *.
+  assert (HP : forall k0 v0, abs b' !! k0 = Some v0 <-> abs b !! k0 = Some v0 /\ v0 <> v)
+    by (intros; rewrite Habs; apply spec_remove_value_lookup).
+  split.
+  - intros v'. apply (effect_reverse b' _ v' _ Hi' HP).
+    destruct (decide (v' = v)) as [->|Hv]; [right; split; [reflexivity|]; intros k0 [_ ?]; contradiction|].
+    destruct (proj1 (GetReverse_char b v' _ Hi) eq_refl) as [(k1 & Er & E1)|[Er Hno]].
+    + left. exists k1. auto.
+    + right. split; [exact Er|]. intros k0 [E0' _]. apply (Hno k0 E0').
+  - intros k'. apply (effect_forward b' _ k' _ HP).
+    destruct (decide (GetForward b k' = (v, true))) as [Ev|Ev].
+    + right. split; [reflexivity|]. intros v0 [E0' Hv0].
+      apply GetForward_char in Ev as [(v1 & [= <-] & E1)|[? _]]; [|discriminate]. congruence.
+    + destruct (abs b !! k') as [v1|] eqn:E1.
+      * left. exists v1. split; [apply GetForward_char; left; eauto|]. split; [reflexivity|].
+        intros ->. apply Ev. apply GetForward_char. left. eauto.
+      * right. split; [apply GetForward_char; right; auto|]. intros v0 [? _]. congruence.
+Qed.
+
+Lemma Clear_effect b : inv b ->
+  (forall k', GetForward (Clear b) k' = (0, false)) /\ (forall v', GetReverse (Clear b) v' = (0, false)).
+Proof.
+  intros Hi. destruct (Clear_spec b Hi) as [Hi' Habs].
+  assert (HP : forall k0 v0 : Z, abs (Clear b) !! k0 = Some v0 <-> False)
+    by (intros; rewrite Habs, lookup_empty; split; [discriminate|contradiction]).
+  split.
+  - intros k'. apply (effect_forward _ _ k' _ HP). right. auto.
+  - intros v'. apply (effect_reverse _ _ v' _ Hi' HP). right. auto.
+Qed.
+
+(* lifting to histories: the last operation of a history *)
+Lemma run_snoc ops o st' :
+  run (ops ++ [o]) = Ok st' -> exists st, run ops = Ok st /\ Forall inv st /\ step st o = Ok st'.
+Proof.
+  unfold run. rewrite run_from_app. intros E.
+  destruct (run_from init_state ops) as [st|kind] eqn:E1; cbn in E; [|discriminate].
+  exists st. split; [reflexivity|]. split; [apply (run_refines ops st E1)|].
+  destruct (step st o); cbn in E; congruence.
+Qed.
+
+Lemma run_add_effect ops h k v st' :
+  run (ops ++ [OAdd h k v]) = Ok st' ->
+  exists st b b', run ops = Ok st /\ st !! h = Some b /\ st' = <[h:=b']> st /\ st' !! h = Some b' /\
+  (forall k', GetForward b' k' =
+     if decide (k' = k) then (v, true)
+     else if decide (GetForward b k' = (v, true)) then (0, false) else GetForward b k') /\
+  (forall v', GetReverse b' v' =
+     if decide (v' = v) then (k, true)
+     else if decide (GetReverse b v' = (k, true)) then (0, false) else GetReverse b v').
+Proof.
+  intros E. destruct (run_snoc _ _ _ E) as (st & E1 & Hinv & Es). cbn in Es.
+  unfold get_handle, set_handle in Es. destruct (st !! h) as [b|] eqn:Hb; cbn in Es; [|discriminate].
+  destruct (Add b k v) as [b'|] eqn:Ea; cbn in Es; [|discriminate]. injection Es as <-.
+  assert (Hi : inv b) by (eapply Forall_lookup_1; eauto).
+  exists st, b, b'. split; [exact E1|]. split; [reflexivity|]. split; [reflexivity|].
+  split; [apply list_lookup_insert; eapply lookup_lt_Some; eauto|].
+  apply Add_effect; assumption.
+Qed.
+
+Lemma run_remove_forward_effect ops h k st' :
+  run (ops ++ [ORemoveForward h k]) = Ok st' ->
+  exists st b b', run ops = Ok st /\ st !! h = Some b /\ st' = <[h:=b']> st /\ st' !! h = Some b' /\
+  (forall k', GetForward b' k' = if decide (k' = k) then (0, false) else GetForward b k') /\
+  (forall v', GetReverse b' v' = if decide (GetReverse b v' = (k, true)) then (0, false) else GetReverse b v').
+Proof.
+  intros E. destruct (run_snoc _ _ _ E) as (st & E1 & Hinv & Es). cbn in Es.
+  unfold get_handle, set_handle in Es. destruct (st !! h) as [b|] eqn:Hb; cbn in Es; [|discriminate].
+  injection Es as <-. assert (Hi : inv b) by (eapply Forall_lookup_1; eauto).
+  exists st, b, (RemoveForward b k). split; [exact E1|]. split; [reflexivity|]. split; [reflexivity|].
+  split; [apply list_lookup_insert; eapply lookup_lt_Some; eauto|].
+  apply RemoveForward_effect; assumption.
+Qed.
+
+Lemma run_remove_reverse_effect ops h v st' :
+  run (ops ++ [ORemoveReverse h v]) = Ok st' ->
+  exists st b b', run ops = Ok st /\ st !! h = Some b /\ st' = <[h:=b']> st /\ st' !! h = Some b' /\
+  (forall v', GetReverse b' v' = if decide (v' = v) then (0, false) else GetReverse b v') /\
+  (forall k', GetForward b' k' = if decide (GetForward b k' = (v, true)) then (0, false) else GetForward b k').
+Proof.
+  intros E. destruct (run_snoc _ _ _ E) as (st & E1 & Hinv & Es). cbn in Es.
+  unfold get_handle, set_handle in Es. destruct (st !! h) as [b|] eqn:Hb; cbn in Es; [|discriminate].
+  injection Es as <-. assert (Hi : inv b) by (eapply Forall_lookup_1; eauto).
+  exists st, b, (RemoveReverse b v). split; [exact E1|]. split; [reflexivity|]. split; [reflexivity|].
+  split; [apply list_lookup_insert; eapply lookup_lt_Some; eauto|].
+  apply RemoveReverse_effect; assumption.
+Qed.
+
+Lemma run_clear_effect ops h st' :
+  run (ops ++ [OClear h]) = Ok st' ->
+  exists st b b', run ops = Ok st /\ st !! h = Some b /\ st' = <[h:=b']> st /\ st' !! h = Some b' /\
+  (forall k', GetForward b' k' = (0, false)) /\ (forall v', GetReverse b' v' = (0, false)) /\ Len (Some b') = 0.
+Proof.
+  intros E. destruct (run_snoc _ _ _ E) as (st & E1 & Hinv & Es). cbn in Es.
+  unfold get_handle, set_handle in Es. destruct (st !! h) as [b|] eqn:Hb; cbn in Es; [|discriminate].
+  injection Es as <-. assert (Hi : inv b) by (eapply Forall_lookup_1; eauto).
+  exists st, b, (Clear b). split; [exact E1|]. split; [reflexivity|]. split; [reflexivity|].
+  split; [apply list_lookup_insert; eapply lookup_lt_Some; eauto|].
+  destruct (Clear_effect b Hi) as [Hf Hr]. split; [exact Hf|]. split; [exact Hr|].
+  rewrite Len_spec. destruct (Clear_spec b Hi) as [_ ->]. rewrite map_size_empty. reflexivity.
+Qed.
+
+(* the reference states on their own: every reachable reference state is injective *)
+Lemma spec_run_injective ops sp : spec_run ops = Some sp -> Forall injective sp.
+Proof.
+  intros Hsp. destruct (wf_ops ops) eqn:Hwf.
+  - destruct (proj1 (run_total ops) Hwf) as [st E].
+    destruct (run_refines ops st E) as (_ & Hsp' & Hinj). congruence.
+  - unfold wf_ops, spec_run in *.
+    destruct (run_from_bad ops init_state Forall_inv_init Hwf) as [_ Hn]. cbn in Hn. congruence.
+Qed.
